@@ -457,7 +457,8 @@ def run_scheduler_scenarios(res, c):
                     v = yield f, child.asynq(), f
                 else:
                     v = yield child.asynq(True), f, child.asynq()
-                seen.append(("val", v))
+                if shape != "child,child":  # there the parent does not await f itself
+                    seen.append(("val", v))
             except UserErr as e:
                 seen.append(("exc", e))
             return 0
